@@ -10,7 +10,7 @@ from ..core import case_seed
 
 PID = 'C15'
 TAU = Fraction(1, 10 ** 10)
-RULE = ('exhaustive enumeration of (N,d) with N<=Nmax, d<=dmax and C(N+d-1,d)<=bound; for each pair every (i,alpha) '
+RULE = ('exhaustive enumeration of (N,d) with N<=Nmax, d<=dmax and C(N+d-1,d)<=bound, plus high degrees d in 11..18 for N<=2 (tolerance growing with d); for each pair every (i,alpha) '
         'identity sum_j Gamma[i,j]*ray_j^alpha = delta(i,alpha) is evaluated in exact integer arithmetic from the returned '
         'floats (tolerance 1e-10 * sum_j |Gamma[i,j]| ray_j^alpha); the multi-index list is compared with an independent '
         'itertools enumeration; increment() traces and binomial/factorial/pow/pos helpers against exact references; '
@@ -20,9 +20,19 @@ BOUNDS = {'quick': (6, 7, 60), 'thorough': (8, 10, 260)}
 EXHAUSTIVE = {'quick': True, 'thorough': True}
 
 
+HIGH = {'quick': [(1, 11), (2, 11), (1, 13), (2, 13), (1, 16), (2, 16)],
+        'thorough': [(N, d) for N in (1, 2) for d in range(11, 19)] + [(3, 11), (3, 12), (4, 11)]}
+
+
 def pairs(tier):
     Nmax, dmax, bound = BOUNDS[tier]
-    return [(N, d) for N in range(1, Nmax + 1) for d in range(1, dmax + 1) if math.comb(N + d - 1, d) <= bound]
+    return [(N, d) for N in range(1, Nmax + 1) for d in range(1, dmax + 1) if math.comb(N + d - 1, d) <= bound] + HIGH[tier]
+
+
+def tol(d):
+    """the alternating sums behind gamma(i,j) lose about half a digit per degree beyond 10 on the pinned tree
+    (measured: 4e-11 at d=11, 4e-10 at 13, 9e-9 at 16, 1e-7 at 18); below that 1e-10"""
+    return TAU if d <= 10 else Fraction(3, 10 ** 10) * Fraction(10) ** ((d - 10 + 1) // 2)
 
 
 def cases(tier, seed):
@@ -89,7 +99,7 @@ def _gamma(ctx, N, d):
             delta = den if i == a else 0
             err = abs(int(S[i, a]) - delta)
             scale = max(int(Sabs[i, a]), den)
-            if err * TAU.denominator > TAU.numerator * scale:
+            if Fraction(err) > tol(d) * scale:
                 ctx.violation('gamma_identity:%s' % ('diag' if i == a else 'offdiag'),
                               {'N': N, 'd': d, 'i': got[i], 'alpha': got[a], 'sum': float(Fraction(int(S[i, a]), den)),
                                'want': 1.0 if i == a else 0.0})
